@@ -7,7 +7,7 @@ REPO=$1; shift
 export VERIF_REPO=$REPO
 for d in seeded/*/; do
   id=$(basename $d); prop=$(echo $id | cut -c1-3)
-  git -C $REPO apply $d/patch.diff 2>/dev/null || { echo "$id: patch does not apply"; continue; }
+  git -C $REPO apply "$(pwd)/$d/patch.diff" 2>/dev/null || { echo "$id: patch does not apply"; continue; }
   for s in "$@"; do
     n=$(VERIF_SEED=$s ./check $prop 2>&1 | grep -c '^VIOLATION')
     echo "$id seed=$s violations=$n"
